@@ -244,7 +244,11 @@ func (st *State) freshVal(hint string, t types.Type) Val {
 		}
 		return v
 	case *types.Array:
-		return Val{T: t, BI: "array"}
+		v := Val{T: t, BI: "array"}
+		if es := sortOf(u.Elem()); es != "" {
+			v.Row = st.fresh(hint+"_row", "(Array Int "+es+")")
+		}
+		return v
 	}
 	srt := sortOf(t)
 	if srt == "" {
@@ -372,7 +376,7 @@ func (st *State) bindSubObjects(a *Addr) {
 }
 
 func (st *State) memClass(t types.Type) string {
-	c := "mem:" + types.TypeString(t, nil)
+	c := "mem:" + canonType(t)
 	srt := sortOf(t)
 	if srt == "" {
 		panic(rejectErr("memory cell of composite type " + t.String()))
@@ -382,7 +386,7 @@ func (st *State) memClass(t types.Type) string {
 }
 
 func (st *State) elemClass(t types.Type) string {
-	c := "elems:" + types.TypeString(t, nil)
+	c := "elems:" + canonType(t)
 	srt := sortOf(t)
 	if srt == "" {
 		panic(rejectErr("slice element of composite type " + t.String()))
@@ -396,7 +400,7 @@ func (st *State) mapClasses(m *types.Map) (string, string) {
 	if ks == "" || vs == "" {
 		panic(rejectErr("map with composite key/value: " + m.String()))
 	}
-	k := types.TypeString(m.Key(), nil) + ":" + types.TypeString(m.Elem(), nil)
+	k := canonType(m.Key()) + ":" + canonType(m.Elem())
 	p, v := "mapP:"+k, "mapV:"+k
 	st.x.w.declClass(p, "(Array Int (Array "+ks+" Bool))")
 	st.x.w.declClass(v, "(Array Int (Array "+ks+" "+vs+"))")
@@ -442,7 +446,7 @@ func (st *State) fieldAddr(base *Addr, i int) *Addr {
 func (st *State) elemAddrOf(arr, idx string, et types.Type) *Addr {
 	switch et.Underlying().(type) {
 	case *types.Struct:
-		fn := quoteSym("elemref:" + types.TypeString(et, nil))
+		fn := quoteSym("elemref:" + canonType(et))
 		st.x.w.declUF(fn, "(declare-fun "+fn+" (Int Int) Int)")
 		ref := "(" + fn + " " + arr + " " + idx + ")"
 		if al, ok := st.last["alias@"+ref]; ok {
@@ -531,7 +535,11 @@ func (st *State) loadFrom(h map[string]string, a *Addr, t types.Type) Val {
 		}
 		return v
 	case "arr":
-		return Val{T: t, BI: "array"}
+		v := Val{T: t, BI: "array"}
+		if at, ok := a.Elem.Underlying().(*types.Array); ok && sortOf(at.Elem()) != "" {
+			v.Row = "(select " + get(st.elemClass(at.Elem())) + " " + a.Ref + ")"
+		}
+		return v
 	case "fld", "mem":
 		srt := sortOf(a.Elem)
 		v := Val{T: t, S: "(select " + get(a.Class) + " " + a.Ref + ")", Sort: srt}
@@ -599,7 +607,24 @@ func (st *State) storeAt(a *Addr, v Val, t types.Type) {
 		}
 	case "arr":
 		if v.BI == "array" {
-			return // whole-array stores of unconstrained arrays: contents stay unconstrained
+			// whole-array store: the row of this array becomes the value's contents (or unconstrained)
+			at, ok := a.Elem.Underlying().(*types.Array)
+			if !ok || sortOf(at.Elem()) == "" {
+				return // arrays of composite elements: the elements are objects of their own
+			}
+			cls := st.elemClass(at.Elem())
+			row := v.Row
+			if row == "" {
+				row = st.fresh("arr_row", "(Array Int "+sortOf(at.Elem())+")")
+			}
+			st.x.noteWrite(st, &Addr{Kind: "elem", Class: cls, Ref: a.Ref, Elem: at.Elem()})
+			st.hset(cls, "(store "+st.hget(cls)+" "+a.Ref+" "+row+")")
+			for k := range st.last {
+				if strings.HasPrefix(k, cls+"@"+a.Ref+"@") {
+					delete(st.last, k)
+				}
+			}
+			return
 		}
 		panic(rejectErr("store of array value"))
 	default:
